@@ -1,5 +1,5 @@
 From Coq Require Import ZArith List Bool String.
-From FrameModel Require Import PB.Expr PB.Cnf PB.Robdd PB.SatFacts0.
-Theorem C07_gt0_refuted : exists i a, isclause_orig i = Tautology /\ ~ holds a i.
+From FrameModel Require Import PB.Expr PB.Cnf PB.Robdd PB.RobddFacts.
+Theorem C07_gt0_refuted : exists i a, Forall (fun t => (0 < tc t)%Z) (il i) /\ isclause_orig i = Tautology /\ ~ holds a i.
 Proof. exact gt0_refuted. Qed.
 Print Assumptions C07_gt0_refuted.
